@@ -62,7 +62,8 @@ func c14Source(variant, edit int) string {
 	case c14KindLater:
 		bytag = "gauge bytag by tag"
 	}
-	body := fmt.Sprintf("%s%s\n%s\ngauge g\n/^(?P<tag>[a-e]) (?P<n>%s)$/ {\n  hits++\n  %s++\n  g = $n\n}\n", head, hits, bytag, num, idx)
+	// lat: a histogram without keys (its single datum exists from the moment the program is loaded)
+	body := fmt.Sprintf("%s%s\n%s\ngauge g\nhistogram lat buckets 1, 2, 4\n/^(?P<tag>[a-e]) (?P<n>%s)$/ {\n  hits++\n  %s++\n  g = $n\n  lat = $n\n}\n", head, hits, bytag, num, idx)
 	if variant != c14Keys {
 		body += "/^del (?P<tag>[a-e])$/ {\n  del bytag[$tag] after 1h\n}\n"
 	}
